@@ -85,6 +85,9 @@ func genSegments(r *h.Rand, d delims) ([]seg, string, string) {
 					b.WriteString(r.Pick([]string{"c", " ", "\n", d.left(), d.right(), d.lcomment(), "é", `"`, "- ", " -", "*"}))
 				}
 				body := b.String()
+				if r.Chance(25) {
+					body = d.rcomment()[1:] + body // looks like the tail of the closing marker right after the opener
+				}
 				if strings.Contains(body+d.rcomment()[:len(d.rcomment())-1], d.rcomment()) {
 					body = "c"
 				}
